@@ -1090,7 +1090,17 @@ def flat_items(items):
 
 @rule("R-EXTENT", 20, "an array field is saved with the element count it was allocated with in every building constructor")
 def r_extent(db, rep):
-    pairs = [(w, r) for w, r in find_pairs(db) if not is_dispatcher(db, r)]
+    _extent(db, rep, None)
+
+
+@rule("R-EXTENT-FM", 2, "R-EXTENT restricted to the FM-index state (class SSA: occ, alphabet, suffix samples): the tables prefix and "
+                        "substring search index have the same extent in a built and in a loaded index")
+def r_extent_fm(db, rep):
+    _extent(db, rep, ("SSA",))
+
+
+def _extent(db, rep, only):
+    pairs = [(w, r) for w, r in find_pairs(db) if not is_dispatcher(db, r) and (only is None or w.rec in only)]
     cone = mirror_cone(db, pairs)
     done = set()
     undecided = 0
@@ -1109,6 +1119,13 @@ def r_extent(db, rep):
         if not arrays:
             continue
         ctors = [c for c in db.methods_of(w.rec) if c.is_ctor and stream_param(c, STREAM_IN) is None]
+        # build steps outside the constructors (SSA::build_index, ...): non-static methods that allocate one of the saved arrays
+        for m in db.methods_of(w.rec):
+            if m.is_ctor or m.is_dtor or m.static or not m.body or m.name in ("save", "load") or stream_param(m, STREAM_IN) is not None:
+                continue
+            if any(access_path(m, lv) in [p for p, _ in arrays] and wr.get("rhs") is not None and strip(wr["rhs"])["k"] == "CXXNewExpr"
+                   for lv, wr in written_lvalues(m)):
+                ctors.append(m)
         for c in ctors:
             cb = SeqBuilder(db, c, "c", nosubst=True)
             cb.run()
@@ -1140,8 +1157,10 @@ def r_extent(db, rep):
                     if wit is not None:
                         rep.viol("%s::%s#%s" % (w.rec, p[1], "ctor%d" % len(c.params)), c.nloc(node),
                                  "%s::%s is allocated with %s bytes in %s but %s writes %s bytes from it "
-                                 "(e.g. %s): save reads past the allocation" % (
-                                     w.rec, p[1], canon(ea), c.qn, w.qn, canon(ew), wit), c.qn,
+                                 "(e.g. %s): %s" % (
+                                     w.rec, p[1], canon(ea), c.qn, w.qn, canon(ew), wit,
+                                     "save reads past the allocation" if wit.get("lhs", 0) < wit.get("rhs", 0) else
+                                     "the image (and every object loaded from it) holds fewer elements than the built object, whose queries index the full extent"), c.qn,
                                  {"alloc": canon(ea), "saved": canon(ew), "save_loc": w.nloc(it.node)})
     rep.notes.append("%d allocation/save pairs involve values the rule cannot relate (locals, loop-carried values)" % undecided)
 
